@@ -27,13 +27,16 @@ func oracleC06(x *Exec, so *StepObs) {
 	if op.Op == "cli" {
 		spelling = "cli"
 		for _, a := range op.CLI {
-			if strings.HasPrefix(a, "--dry-run") || a == "--validate" || a == "--is-upgrade" || a == "--install" {
+			if strings.HasPrefix(a, "--dry-run") || a == "--validate" || a == "--is-upgrade" || a == "--install" || a == "--description" {
 				spelling += " " + a
 			}
 		}
 	}
 	if op.ClientOnly {
 		spelling += "+client-only"
+	}
+	if op.Description != "" && op.Op != "cli" {
+		spelling += "+description"
 	}
 	opName := op.Op
 	if op.Op == "cli" {
@@ -186,6 +189,10 @@ func genC06(seed, index uint64, tier string) *Plan {
 		default:
 			op.DryRun = true
 		}
+		if op.Op != "rollback" && g.Chance(0.3) {
+			// a caller-supplied description is only text on the returned release; it must not turn the dry run into a real one
+			op.Description = g.Pick("why", "dry run with a reason", "x")
+		}
 		if g.Chance(0.2) {
 			// the same through the command line layer (pkg/cmd): flag parsing and wiring are part of what must not write
 			cli := OpSpec{Op: "cli", Chart: op.Chart, Values: op.Values, TimeoutS: op.TimeoutS}
@@ -223,6 +230,7 @@ func genC06(seed, index uint64, tier string) *Plan {
 				add(g.Chance(0.2), "--wait")
 				add(g.Chance(0.2), "--no-hooks")
 				add(g.Chance(0.2), "--skip-crds")
+				add(g.Chance(0.3), "--description", "why")
 			case 2:
 				cli.CLIKind = "upgrade"
 				cli.CLI = []string{"upgrade", "rel", "@CHART@", "-n", "ns1", "-f", "@VALUES@", g.Pick("--dry-run", "--dry-run=client", "--dry-run=server", "--dry-run=true")}
@@ -233,12 +241,14 @@ func genC06(seed, index uint64, tier string) *Plan {
 				add(g.Chance(0.2), "--history-max", "1")
 				add(g.Chance(0.2), "--reuse-values")
 				add(g.Chance(0.2), "--cleanup-on-fail")
+				add(g.Chance(0.3), "--description", "why")
 			case 3:
 				cli.CLIKind = "uninstall"
 				cli.CLI = []string{"uninstall", "rel", "-n", "ns1", "--dry-run"}
 				add(g.Chance(0.3), "--keep-history")
 				add(g.Chance(0.3), "--no-hooks")
 				add(g.Chance(0.2), "--ignore-not-found")
+				add(g.Chance(0.3), "--description", "why")
 			case 4:
 				cli.CLIKind = "rollback"
 				cli.CLI = []string{"rollback", "rel", fmt.Sprint(g.N(3)), "-n", "ns1", "--dry-run"}
